@@ -453,6 +453,17 @@ func (p *sparser) parsePrimary() SExpr {
 			ty := p.parseType()
 			p.expectOp(")")
 			return &SCall{&SIdent{t.text}, []SExpr{e, &SType{ty}}}
+		case "mk":
+			// mk(T, field values in declaration order)
+			p.expectOp("(")
+			ty := p.parseType()
+			args := []SExpr{&SType{ty}}
+			for p.isOp(",") {
+				p.next()
+				args = append(args, p.parseExpr(0))
+			}
+			p.expectOp(")")
+			return &SCall{&SIdent{"mk"}, args}
 		case "zero", "tid":
 			p.expectOp("(")
 			ty := p.parseType()
